@@ -251,13 +251,19 @@ pub fn run_case(
         let em = &prep.emitted[pi];
         let faults: Vec<Fault> = plan
             .iter()
-            .filter(|p| p.prog == pi)
+            .filter(|p| p.prog == pi && p.fault.kind != "quota")
             .map(|p| p.fault.to_fault())
             .collect();
+        // a quota on the bytes the file system accepts during this program run
+        let quota: Option<usize> = plan
+            .iter()
+            .find(|p| p.prog == pi && p.fault.kind == "quota")
+            .map(|p| p.fault.arg as usize);
         let mut world0 = World::new(em.spans.clone(), sc.stdin.clone(), fs.clone(), faults);
         for (row, c0, c1) in &em.code_lines {
             world0.code_lines.insert(*row, (*c0, *c1));
         }
+        world0.fs_quota = quota;
         let world = world0.shared();
         let r = run_program(&prep.programs[pi], &world, BUDGET);
         let w = world.borrow();
@@ -363,6 +369,25 @@ pub fn run_case(
                     fail_stmts.insert(st.id);
                 }
             });
+            // the statements of the error handler (after the H1 label of the main module):
+            // an error inside a handler is not defined, a fault there only wastes the run
+            let mut in_handler = false;
+            for st in &sc.main {
+                if let StmtKind::Label(l) = &st.kind {
+                    if l.eq_ignore_ascii_case("H1") {
+                        in_handler = true;
+                    }
+                }
+                if in_handler {
+                    fail_stmts.insert(st.id);
+                    if let StmtKind::IfLine { then_s, else_s, .. } = &st.kind {
+                        fail_stmts.insert(then_s.id);
+                        if let Some(e) = else_s {
+                            fail_stmts.insert(e.id);
+                        }
+                    }
+                }
+            }
             let mut counts: BTreeMap<(StmtId, u32, OpClass, SeamKind), u32> = BTreeMap::new();
             for ev in &w.log {
                 use crate::world::EventKind as K;
